@@ -22,6 +22,11 @@
 (*   "lost" a handshake of x passed the credential check elsewhere but its response could not     *)
 (*   be delivered (not a successful handshake), "late" an older connection of x was closed /      *)
 (*   cleaned up, "ttl" at least one registration lifetime of ticks has passed; "fresh" = none.    *)
+(*   A leading "reauth+" marks that x's latest successful handshake was a re-handshake on a       *)
+(*   connection x had already authenticated on.                                                  *)
+(*   A leading "lookup+" marks that, since that handshake, a two-step lookup of x (LkBegin = it    *)
+(*   read the client index, LkEnd = it read the record) completed - lookups are read-only, so     *)
+(*   this must not matter; nothing is demanded of the overlapped lookup's own answer.             *)
 (*   FindClosed / RouteClosed details end with the cause of the latest close of a connection of   *)
 (*   x: peer (read loop ended) | cmd (disconnect command) | sweep (heartbeat timeout) | kick.     *)
 EXTENDS VLib
@@ -35,32 +40,34 @@ VARIABLES be, life, clk,
           late,    \* client -> an older connection of it was closed since that handshake
           lost,    \* client -> an undeliverable handshake of it happened since that handshake
           cause,   \* client -> cause of the latest close of one of its connections
+          lkd,     \* client -> a two-step lookup of it completed since its latest handshake
+          re,      \* client -> its latest handshake was a re-handshake on an already authenticated connection
           hb, alive
-vars == <<l, viol, be, life, clk, cs, last, lastAt, late, lost, cause, hb, alive>>
+vars == <<l, viol, be, life, clk, cs, last, lastAt, late, lost, cause, lkd, re, hb, alive>>
 
 Fresh == [st |-> "new", node |-> "-", auth |-> "-"]
 Reset == /\ be' = "?" /\ life' = 2 /\ clk' = 0
          /\ cs' = [c \in Conns |-> Fresh]
          /\ last' = [x \in Clients |-> "-"] /\ lastAt' = [x \in Clients |-> 0]
          /\ late' = [x \in Clients |-> FALSE] /\ lost' = [x \in Clients |-> FALSE]
-         /\ cause' = [x \in Clients |-> "-"]
+         /\ cause' = [x \in Clients |-> "-"] /\ lkd' = [x \in Clients |-> FALSE] /\ re' = [x \in Clients |-> FALSE]
          /\ hb' = [c \in Conns |-> FALSE] /\ alive' = [c \in Conns |-> FALSE]
 
 Init == /\ l = 1 /\ viol = {} /\ be = "?" /\ life = 2 /\ clk = 0
         /\ cs = [c \in Conns |-> Fresh]
         /\ last = [x \in Clients |-> "-"] /\ lastAt = [x \in Clients |-> 0]
         /\ late = [x \in Clients |-> FALSE] /\ lost = [x \in Clients |-> FALSE]
-        /\ cause = [x \in Clients |-> "-"]
+        /\ cause = [x \in Clients |-> "-"] /\ lkd = [x \in Clients |-> FALSE] /\ re = [x \in Clients |-> FALSE]
         /\ hb = [c \in Conns |-> FALSE] /\ alive = [c \in Conns |-> FALSE]
 
 Step == l' = l + 1
 
 TrCfg == /\ Is("Cfg") /\ be' = Ev.be /\ life' = Ev.ttl /\ Step
-         /\ UNCHANGED <<viol, clk, cs, last, lastAt, late, lost, cause, hb, alive>>
+         /\ UNCHANGED <<viol, clk, cs, last, lastAt, late, lost, cause, lkd, re, hb, alive>>
 
 TrConnect == /\ Is("Connect") /\ Ev.c \in Conns
              /\ cs' = [cs EXCEPT ![Ev.c] = [st |-> "open", node |-> Ev.n, auth |-> "-"]]
-             /\ Step /\ UNCHANGED <<viol, be, life, clk, last, lastAt, late, lost, cause, hb, alive>>
+             /\ Step /\ UNCHANGED <<viol, be, life, clk, last, lastAt, late, lost, cause, lkd, re, hb, alive>>
 
 \* a successful control handshake of client x on connection c at node n; "evicted" lists the
 \* connections whose transport the server closed while handling it (observed by the driver)
@@ -74,7 +81,8 @@ TrAuth == /\ Is("Auth") /\ Ev.c \in Conns /\ Ev.x \in Clients
           /\ lost' = [lost EXCEPT ![Ev.x] = FALSE]
           /\ hb' = [hb EXCEPT ![Ev.c] = TRUE]
           /\ alive' = [alive EXCEPT ![Ev.c] = TRUE]
-          /\ Step /\ UNCHANGED <<viol, be, life, clk, cause>>
+          /\ Step /\ UNCHANGED <<viol, be, life, clk, cause>> /\ lkd' = [lkd EXCEPT ![Ev.x] = FALSE]
+          /\ re' = [re EXCEPT ![Ev.x] = (cs[Ev.c].auth = Ev.x)]
 
 \* the credential check of x passed on connection c but the response could not be written: the
 \* peer is gone.  Not a successful handshake: x's location does not move.  The connection is dead
@@ -82,30 +90,39 @@ TrAuth == /\ Is("Auth") /\ Ev.c \in Conns /\ Ev.x \in Clients
 TrAuthLost == /\ Is("AuthLost") /\ Ev.c \in Conns /\ Ev.x \in Clients
               /\ cs' = [cs EXCEPT ![Ev.c].st = "dead"]
               /\ lost' = [lost EXCEPT ![Ev.x] = TRUE]
-              /\ Step /\ UNCHANGED <<viol, be, life, clk, last, lastAt, late, cause, hb, alive>>
+              /\ Step /\ UNCHANGED <<viol, be, life, clk, last, lastAt, late, cause, lkd, re, hb, alive>>
 
 TrHB == /\ Is("HB") /\ Ev.c \in Conns
         /\ hb' = [hb EXCEPT ![Ev.c] = TRUE]
-        /\ Step /\ UNCHANGED <<viol, be, life, clk, cs, last, lastAt, late, lost, cause, alive>>
+        /\ Step /\ UNCHANGED <<viol, be, life, clk, cs, last, lastAt, late, lost, cause, lkd, re, alive>>
+
+\* a two-step lookup of x on node m: no demand on its own answer (it overlaps other events)
+TrLkBegin == /\ Is("LkBegin") /\ Step
+             /\ UNCHANGED <<viol, be, life, clk, cs, last, lastAt, late, lost, cause, lkd, re, hb, alive>>
+TrLkEnd == /\ Is("LkEnd") /\ Step
+           /\ lkd' = IF Ev.x \in Clients THEN [lkd EXCEPT ![Ev.x] = TRUE] ELSE lkd
+           /\ UNCHANGED <<viol, be, life, clk, cs, last, lastAt, late, lost, cause, re, hb, alive>>
 
 TrClose == /\ Is("Close") /\ Ev.c \in Conns
            /\ cs' = [cs EXCEPT ![Ev.c].st = "closed"]
            /\ LET x == cs[Ev.c].auth IN
               /\ late' = IF x \in Clients /\ last[x] # Ev.c THEN [late EXCEPT ![x] = TRUE] ELSE late
               /\ cause' = IF x \in Clients THEN [cause EXCEPT ![x] = Ev.why] ELSE cause
-           /\ Step /\ UNCHANGED <<viol, be, life, clk, last, lastAt, lost, hb, alive>>
+           /\ Step /\ UNCHANGED <<viol, be, life, clk, last, lastAt, lost, lkd, re, hb, alive>>
 
 TrTick == /\ Is("Tick") /\ clk' = clk + 1
           /\ alive' = [c \in Conns |-> alive[c] /\ (cs[c].st # "open" \/ hb[c])]
           /\ hb' = [c \in Conns |-> FALSE]
-          /\ Step /\ UNCHANGED <<viol, be, life, cs, last, lastAt, late, lost, cause>>
+          /\ Step /\ UNCHANGED <<viol, be, life, cs, last, lastAt, late, lost, cause, lkd, re>>
 
 \* ---- what the statement demands right now ------------------------------------------------
 Connected(x) == last[x] # "-" /\ cs[last[x]].st = "open" /\ alive[last[x]]
 AllClosed(x) == last[x] # "-" /\ \A c \in Conns : cs[c].auth = x => cs[c].st = "closed"
 Class(x) == LET t == clk - lastAt[x] >= life
                 base == IF late[x] /\ t THEN "late+ttl" ELSE IF late[x] THEN "late" ELSE IF t THEN "ttl" ELSE "fresh"
-            IN IF ~lost[x] THEN base ELSE IF base = "fresh" THEN "lost" ELSE "lost+" \o base
+                b2 == IF ~lost[x] THEN base ELSE IF base = "fresh" THEN "lost" ELSE "lost+" \o base
+                b3 == IF lkd[x] THEN "lookup+" \o b2 ELSE b2
+            IN IF re[x] THEN "reauth+" \o b3 ELSE b3
 
 FindBad(f) ==
   IF f.x \notin Clients THEN {}
@@ -134,11 +151,11 @@ RouteBad(f) ==
 TrObs == /\ Is("Obs")
          /\ viol' = viol \cup UNION {FindBad(Ev.finds[i]) : i \in DOMAIN Ev.finds}
                          \cup UNION {RouteBad(Ev.routes[i]) : i \in DOMAIN Ev.routes}
-         /\ Step /\ UNCHANGED <<be, life, clk, cs, last, lastAt, late, lost, cause, hb, alive>>
+         /\ Step /\ UNCHANGED <<be, life, clk, cs, last, lastAt, late, lost, cause, lkd, re, hb, alive>>
 
 TrEnd == /\ Is("End") /\ EmitVerdict
          /\ l' = l + 1 /\ viol' = {} /\ Reset
 
-Next == TrCfg \/ TrConnect \/ TrAuth \/ TrAuthLost \/ TrHB \/ TrClose \/ TrTick \/ TrObs \/ TrEnd
+Next == TrCfg \/ TrConnect \/ TrAuth \/ TrAuthLost \/ TrLkBegin \/ TrLkEnd \/ TrHB \/ TrClose \/ TrTick \/ TrObs \/ TrEnd
 Spec == Init /\ [][Next]_vars
 =============================================================================
